@@ -10,11 +10,38 @@
 //! answers are diffed against the implementation answers by `/verif/check`.
 
 mod cksum;
+mod codec;
 mod path;
 mod seg;
 mod util;
 
+use std::alloc::{GlobalAlloc, Layout, System};
 use std::io::Write;
+use std::sync::atomic::{AtomicUsize, Ordering};
+
+/// largest single allocation request since the counter was last reset (C06 allocation bound)
+pub static MAX_ALLOC: AtomicUsize = AtomicUsize::new(0);
+
+struct Counting;
+unsafe impl GlobalAlloc for Counting {
+    unsafe fn alloc(&self, l: Layout) -> *mut u8 {
+        MAX_ALLOC.fetch_max(l.size(), Ordering::Relaxed);
+        System.alloc(l)
+    }
+    unsafe fn dealloc(&self, p: *mut u8, l: Layout) {
+        System.dealloc(p, l)
+    }
+    unsafe fn realloc(&self, p: *mut u8, l: Layout, new_size: usize) -> *mut u8 {
+        MAX_ALLOC.fetch_max(new_size, Ordering::Relaxed);
+        System.realloc(p, l, new_size)
+    }
+    unsafe fn alloc_zeroed(&self, l: Layout) -> *mut u8 {
+        MAX_ALLOC.fetch_max(l.size(), Ordering::Relaxed);
+        System.alloc_zeroed(l)
+    }
+}
+#[global_allocator]
+static GLOBAL: Counting = Counting;
 
 pub struct Opts {
     pub seed: u64,
@@ -64,6 +91,7 @@ fn main() {
         "seg" => seg::run(&opts, &mut out),
         "cksum" => cksum::run(&opts, &mut out),
         "path" => path::run(&opts, &mut out),
+        "codec" => codec::run(&opts, &mut out),
         other => {
             eprintln!("unknown engine {other}");
             std::process::exit(2);
